@@ -44,6 +44,11 @@ PROFILES = {
     "userfn": dict(p_check=0.6, p_ccheck=0.6, w_extern=4, w_char=2, user_ctx=0.4, w_string=2, w_enum=2, w_alias=2, leftrec=0.3),
     "trace": dict(p_memo=0.3, leftrec=0.3, p_check=0.3, w_extern=2, p_ccheck=0.2),
     "keywords": dict(p_keywords=0.8),
+    # every feature at once: the combinations (memo x check, leftrec x position, extern x @string, ctx x include ...)
+    # are where single-feature profiles are blind; one shared run of this profile is part of most quick tiers
+    "mix": dict(p_memo=0.25, leftrec=0.3, p_check=0.35, p_ccheck=0.3, w_extern=2, w_char=2, user_ctx=0.25, p_user_ws=0.2,
+                p_include=0.2, p_position=0.4, p_unicode=0.3, p_lookahead=0.15, p_multitype=0.35, p_box=0.2, w_enum=2,
+                w_alias=1, p_noskip=0.35, p_keywords=0.1, p_insens=0.12, nrules=(3, 8)),
 }
 
 
